@@ -109,6 +109,20 @@ func genShape(r *Rng, o *Out) structShape {
 					o.stat("id.json-other")
 				}
 			}
+			if r.chance(1, 6) {
+				// the ID field promoted from an embedded struct: reflect's FieldByName("ID")
+				// finds it (type, api tag), the loops over the struct's own fields (json-name
+				// uniqueness, attributes, relationships, getField/setField) never see it: they
+				// see an untagged struct field. In the model's terms that is an untagged field
+				// of another type plus an ID field whose json tag is empty (an ID field's json
+				// tag is only ever read by those loops; an empty one takes no part in them).
+				base := reflect.StructOf([]reflect.StructField{{Name: "ID", Type: ft.t, Tag: mkTag(json, api, json != "", api != "")}})
+				sh.fields = append(sh.fields, reflect.StructField{Name: "Base", Type: base, Anonymous: true})
+				sxs = append(sxs, lst(hx("Base"), lst("o", "3", "0"), hx(""), hx("")))
+				sxs = append(sxs, lst(hx("ID"), ft.sx, hx(""), hx(api)))
+				o.stat("id.embedded")
+				continue
+			}
 			add("ID", ft, json, api)
 			continue
 		}
@@ -204,6 +218,10 @@ func suiteStructs(r *Rng, n int, thorough bool, o *Out) {
 			pvB = "FAIL:Check accepts but BuildType fails"
 		case !accepted && (pb || berr == nil):
 			pvB = "FAIL:Check rejects but BuildType does not return an error"
+		case accepted:
+			if m := declaredTypeMismatch(st, typ); m != "" {
+				pvB = "FAIL:built type: " + m
+			}
 		}
 		o.emit(lst("struct", "build", sh.sx), obsB, pvB)
 
@@ -222,6 +240,11 @@ func suiteStructs(r *Rng, n int, thorough bool, o *Out) {
 			pvW = "FAIL:Check rejects but Wrap accepts"
 		case accepted && !pw && !pb && berr == nil && sxType(w.GetType()) != sxType(typ):
 			pvW = "FAIL:wrapper and built type disagree"
+		case accepted && !pw:
+			wt := w.GetType()
+			if m := declaredTypeMismatch(st, wt); m != "" {
+				pvW = "FAIL:wrapper's type: " + m
+			}
 		}
 		o.emit(lst("struct", "wrap", sh.sx), obsW, pvW)
 		if pw {
@@ -285,7 +308,12 @@ func suiteStructs(r *Rng, n int, thorough bool, o *Out) {
 		}
 		ops = append(ops, lst("set", hx("id"), sxVal("i1")), lst("get", hx("id")), "copy", "new")
 		step("Set id", func() string { w.Set("id", "i1"); return "ok" })
-		step("Get id", func() string { return sxVal(w.Get("id")) })
+		step("Get id", func() string {
+			if got := w.Get("id"); got != "i1" && readback == "" {
+				readback = "Get id after Set id returns " + sxVal(got)
+			}
+			return sxVal(w.Get("id"))
+		})
 		step("Copy", func() string { return sxResView(w.Copy()) })
 		step("New", func() string { return sxResView(w.New()) })
 		// marshal is run for the verdict only (modelled in the marshal suites)
@@ -305,6 +333,69 @@ func suiteStructs(r *Rng, n int, thorough bool, o *Out) {
 		}
 		o.emit(lst("struct", "use", sh.sx, lst(ops...)), lst(steps...), pvU)
 	}
+}
+
+// declaredTypeMismatch: what the tags and Go field types of struct type st declare, read
+// with reflect and the harness's own kind table (not the library's), against a Type the
+// library produced for it. "" when they agree.
+func declaredTypeMismatch(st reflect.Type, got jsonapi.Type) string {
+	idf, ok := st.FieldByName("ID")
+	if !ok {
+		return "no ID field"
+	}
+	name := idf.Tag.Get("api")
+	if got.Name != name {
+		return fmt.Sprintf("name %q, the ID tag says %q", got.Name, name)
+	}
+	attrs := map[string]jsonapi.Attr{}
+	rels := map[string]jsonapi.Rel{}
+	for i := 0; i < st.NumField(); i++ {
+		f := st.Field(i)
+		api, js := f.Tag.Get("api"), f.Tag.Get("json")
+		switch {
+		case f.Name == "ID":
+		case api == "attr":
+			kind, nullable := 0, false
+			for k, kt := range kindGoType {
+				if f.Type == kt {
+					kind = k
+				}
+				if f.Type == reflect.PtrTo(kt) {
+					kind, nullable = k, true
+				}
+			}
+			attrs[js] = jsonapi.Attr{Name: js, Type: kind, Nullable: nullable}
+		case api == "rel" || strings.HasPrefix(api, "rel,"):
+			parts := strings.Split(api, ",")
+			rel := jsonapi.Rel{FromType: name, FromName: js, ToOne: f.Type != reflect.TypeOf([]string{})}
+			if len(parts) > 1 {
+				rel.ToType = parts[1]
+			}
+			if len(parts) > 2 {
+				rel.ToName = parts[2]
+			}
+			rels[js] = rel
+		}
+	}
+	if len(got.Attrs) != len(attrs) {
+		return fmt.Sprintf("%d attributes, %d declared", len(got.Attrs), len(attrs))
+	}
+	for k, a := range attrs {
+		if got.Attrs[k] != a {
+			return fmt.Sprintf("attribute %q is %+v, declared %+v", k, got.Attrs[k], a)
+		}
+	}
+	if len(got.Rels) != len(rels) {
+		return fmt.Sprintf("%d relationships, %d declared", len(got.Rels), len(rels))
+	}
+	for k, rel := range rels {
+		g := got.Rels[k]
+		g.FromOne = false // not declared by a tag
+		if g != rel {
+			return fmt.Sprintf("relationship %q is %+v, declared %+v", k, g, rel)
+		}
+	}
+	return ""
 }
 
 func init() {
